@@ -122,6 +122,12 @@ func (conn *Conn) recv() {
 				req.Rc = NewFcall(conn.Msize)
 			}
 
+			if uint32(len(req.Rc.Buf)) > conn.Msize {
+				/* recycled from before a smaller msize was negotiated:
+				   replies must not grow beyond what the client accepts */
+				req.Rc.Buf = req.Rc.Buf[0:conn.Msize]
+			}
+
 			req.Conn = conn
 			req.Tc = fc
 			//			req.Rc = rc
